@@ -1072,6 +1072,7 @@ func (m *Nitro) LoadFromDisk(dir string, concurr int, callb ItemCallback) (*Snap
 	var bs []byte
 	var err error
 	var checksums []uint32
+	var verifyChecksums, verifyDeltaChecksums bool
 
 	manifestdir := dir
 	var version int
@@ -1102,7 +1103,9 @@ func (m *Nitro) LoadFromDisk(dir string, concurr int, callb ItemCallback) (*Snap
 		if len(checksums) != len(files) {
 			return nil, ErrCorruptSnapshot
 		}
+		verifyChecksums = true
 	} else {
+		// Backups written before checksums existed have no checksums.json.
 		checksums = make([]uint32, len(files))
 	}
 
@@ -1172,7 +1175,7 @@ func (m *Nitro) LoadFromDisk(dir string, concurr int, callb ItemCallback) (*Snap
 	close(wchan)
 	wg.Wait()
 	for i, rdr := range readers {
-		if checksums[i] != 0 && checksums[i] != rdr.Checksum() {
+		if verifyChecksums && checksums[i] != rdr.Checksum() {
 			return nil, ErrCorruptSnapshot
 		}
 	}
@@ -1217,6 +1220,7 @@ func (m *Nitro) LoadFromDisk(dir string, concurr int, callb ItemCallback) (*Snap
 			if len(deltaChecksums) != len(files) {
 				return nil, ErrCorruptSnapshot
 			}
+			verifyDeltaChecksums = true
 		}
 
 		defer func() {
@@ -1287,7 +1291,7 @@ func (m *Nitro) LoadFromDisk(dir string, concurr int, callb ItemCallback) (*Snap
 		wg.Wait()
 
 		for i, rdr := range readers {
-			if deltaChecksums[i] != 0 && deltaChecksums[i] != rdr.Checksum() {
+			if verifyDeltaChecksums && deltaChecksums[i] != rdr.Checksum() {
 				return nil, ErrCorruptSnapshot
 			}
 		}
